@@ -172,7 +172,7 @@ class LogFormatter(logging.Formatter):
             dirty_record = None
             for split_at in range(len(parts) + 1):
                 try:
-                    candidate = json.loads("|".join(parts[split_at:] + [json_part]).encode("UTF8"))
+                    candidate = json.loads("|".join(parts[split_at:] + [json_part]))
                 except ValueError:
                     continue
                 if isinstance(candidate, dict):
